@@ -35,7 +35,7 @@ def scripted(tier: str, rng: random.Random) -> list[dict]:
 def run(tier: str) -> int:
     chk = Check("C01", tier)
     rng = random.Random(100 + chk.seed)
-    calcheck.design(chk, ["MC_C01", "MC_C01_mut"] + (["MC_C01_thorough"] if tier == "thorough" else []))
+    calcheck.design(chk, ["MC_C01", "MC_C01_burn", "MC_C01_mut"] + (["MC_C01_thorough"] if tier == "thorough" else []))
     # (a) scripted plug-ins
     traces = calcheck.execute(scripted(tier, rng), procs=6)
     calcheck.validate(chk, traces, relevant={"C01", "C02"})
@@ -46,6 +46,12 @@ def run(tier: str) -> int:
         cfg = twins.random_config(rng, rl=(i % 4 == 3), heavy=(i % 2 == 0))
         vs = VARIANTS if tier == "thorough" else [VARIANTS[0], VARIANTS[4 if i % 2 else 1]] + rng.sample(VARIANTS[1:], 2)
         jobs.append((cfg, vs, str(REPO)))
+    # the number of jobs against every kind of model (plain, single-precision output, overwriting its argument) and every loss
+    kinds = [(f32, scr, loss) for f32 in (False, True) for scr in (False, True) for loss in twins.LOSSES]
+    for f32, scr, loss in (kinds if tier == "thorough" else rng.sample(kinds, 8)):
+        cfg = twins.random_config(rng, rl=False, heavy=False)
+        cfg.update({"f32": f32, "scribble": scr, "loss": loss, "batches": min(cfg["batches"], 4)})
+        jobs.append((cfg, [VARIANTS[0], VARIANTS[1], VARIANTS[2]], str(REPO)))
     results = twins.pool_map(twins._c01_worker, jobs, procs=8)  # noqa: SLF001
     # process history is not part of the configuration either: a fresh interpreter vs one that ran other calibrations before
     hist_jobs, hist_cfgs = [], []
